@@ -3,6 +3,7 @@ package streams
 import (
 	"fmt"
 	"math"
+	"strconv"
 
 	"go.mongodb.org/mongo-driver/bson"
 	"go.mongodb.org/mongo-driver/bson/primitive"
@@ -383,6 +384,75 @@ func init() {
 			}
 			q := Filter(r, 2, malformed)
 			r.Hint = nil
+			var shaped string // an independent verdict for the two dedicated shapes below ("" = none)
+			if !malformed && r.P(4) {
+				// $mod on a stored number from its definition: doubles are truncated TOWARDS ZERO (stored value, divisor and
+				// remainder alike), then Go's / MongoDB's truncated remainder
+				xs := []interface{}{-3.5, -0.5, -1.5, -2.25, 3.5, -7.0, int32(-7), int64(-8), 7.9, -7.9, 1e10 + 0.5, -1e10 - 0.5}
+				ds := []interface{}{int32(2), int64(3), -2.0, 2.5, int32(-3), 4.0}
+				x, dv := xs[r.N(len(xs))], ds[r.N(len(ds))]
+				tr := func(v interface{}) int64 {
+					switch n := v.(type) {
+					case int32:
+						return int64(n)
+					case int64:
+						return n
+					case float64:
+						return int64(math.Trunc(n))
+					}
+					return 0
+				}
+				rem := tr(x) % tr(dv)
+				if r.P(40) {
+					rem = int64(r.N(5) - 2)
+				}
+				var remV interface{} = int32(rem)
+				if r.P(30) {
+					remV = float64(rem) + []float64{0, 0.25}[r.N(2)]*func() float64 {
+						if rem < 0 {
+							return -1
+						}
+						return 1
+					}()
+				}
+				fld := gen.Keys[r.N(len(gen.Keys))]
+				doc = bson.D{{Key: "_id", Value: int32(1)}, {Key: fld, Value: x}}
+				if r.P(30) {
+					doc[1].Value = bson.A{"s", x}
+				}
+				q = bson.D{{Key: fld, Value: bson.D{{Key: "$mod", Value: bson.A{dv, remV}}}}}
+				shaped = strconv.FormatBool(tr(x)%tr(dv) == tr(remV))
+			} else if !malformed && r.P(3) {
+				// $size below ONE fan-out is existential over the sub-documents: a sibling without an array at the path, before
+				// or after, does not matter
+				k1, k2 := gen.Keys[r.N(len(gen.Keys))], gen.Keys[r.N(len(gen.Keys))]
+				want := r.N(3)
+				elems := bson.A{}
+				hit := false
+				for i := 0; i < 1+r.N(4); i++ {
+					switch r.N(5) {
+					case 0:
+						elems = append(elems, bson.D{{Key: k2, Value: r.SmallNumber()}})
+					case 1:
+						elems = append(elems, bson.D{{Key: "zz", Value: int32(1)}})
+					case 2:
+						elems = append(elems, r.Scalar())
+					default:
+						n := r.N(4)
+						a := bson.A{}
+						for j := 0; j < n; j++ {
+							a = append(a, r.SmallNumber())
+						}
+						elems = append(elems, bson.D{{Key: k2, Value: a}})
+						if n == want {
+							hit = true
+						}
+					}
+				}
+				doc = bson.D{{Key: "_id", Value: int32(1)}, {Key: k1, Value: elems}}
+				q = bson.D{{Key: k1 + "." + k2, Value: bson.D{{Key: "$size", Value: int32(want)}}}}
+				shaped = strconv.FormatBool(hit)
+			}
 			if r.P(60) {
 				var arrs []bson.A
 				specDocArrays(doc, &arrs)
@@ -390,6 +460,14 @@ func init() {
 			}
 			impl := matchReply(doc, q)
 			tags := []string{}
+			var shapedViol []run.Violation
+			if shaped != "" {
+				tags = append(tags, "shaped-oracle")
+				if impl != `{"ok":`+shaped+`}` {
+					shapedViol = append(shapedViol, run.Violation{Property: "C10", What: "answer differs from the operator's definition (independent oracle for $mod truncation / $size below a fan-out)",
+						Witness: "shape-oracle:" + q[0].Value.(bson.D)[0].Key, Req: `{"op":"match","d":` + vj.Enc(doc) + `,"q":` + vj.Enc(q) + `}`, Detail: "got " + impl + " want " + shaped})
+				}
+			}
 			if malformed {
 				tags = append(tags, "malformed")
 			}
@@ -511,7 +589,7 @@ func init() {
 				asAnd, _ := implMatch(doc, bson.D{{Key: "$and", Value: parts}})
 				chk("doc_is_and", qv, asAnd)
 			}
-			c.Viols = viols
+			c.Viols = append(viols, shapedViol...)
 			_ = bsonkit.Missing
 			return []run.Case{c}
 		},
